@@ -77,6 +77,8 @@ def replay_once(path, engines):
         return "violation", m.group(0) if m else out.strip()
     if rc == 4:
         return "error", (out + err).strip()[-400:]
+    if rc == 78:
+        return "crash", "case exceeded the per-case time limit (hang)"
     tail = [l for l in err.splitlines() if "ERROR" in l or "runtime error" in l or "SUMMARY" in l or "Assertion" in l or "terminate" in l]
     return "crash", "process died rc=%s %s" % (rc, " | ".join(tail[:3]) or err.strip()[-300:])
 
